@@ -187,13 +187,19 @@ def finding_from_path(ctx, eng, prop, key, what, op, tname, node, extra=None, re
     return rec
 
 
-def run_paths(eng, job, harness, deadline, max_paths=None, on_leaf=None, initial=None, bfs=False):
-    """Drive eng.explore over `harness`, bookkeeping into `job`."""
+def run_paths(eng, job, harness, deadline, max_paths=None, on_leaf=None, initial=None, bfs=False,
+              slice_s=None):
+    """Drive eng.explore over `harness`, bookkeeping into `job`.  With `slice_s` the exploration
+    yields after that many seconds and hands its unexplored sub-trees back to the runner."""
     t0 = time.time()
+    stop = deadline
+    if slice_s is not None:
+        stop = min(deadline, t0 + slice_s) if deadline is not None else t0 + slice_s
     try:
-        for ctx, out in eng.explore(harness, max_paths=max_paths, deadline=deadline, initial=initial, bfs=bfs):
+        for ctx, out in eng.explore(harness, max_paths=max_paths, deadline=stop, initial=initial, bfs=bfs):
             if ctx is None:
-                if bfs and out[0] == "truncated":
+                if (bfs and out[0] == "truncated") or (out[0] == "timeout" and deadline is not None
+                                                       and time.time() < deadline):
                     job.extra["frontier"] = eng.frontier      # handed out to the pool by the runner
                 else:
                     job.incomplete.append("%s after %d paths (%s unexplored prefixes)" % (out[0], job.paths, out[1]))
